@@ -306,6 +306,8 @@ func (its *PushPullHandler) processSubscribeOrCreate(code pushPullCase) errors.O
 		switch code {
 		case caseMatchNothing:
 			return its.createDatatype()
+		case caseUsedDUID, caseMatchKeyNotType: // the DUID or the key belongs to another datatype
+			return errors.PushPullDuplicateKey.New(its.ctx.L(), its.Key)
 		case caseAllMatchedNotSubscribed:
 			return its.subscribeDatatype()
 		}
@@ -313,8 +315,8 @@ func (its *PushPullHandler) processSubscribeOrCreate(code pushPullCase) errors.O
 		switch code {
 		case caseMatchNothing:
 			return errors.PushPullNoDatatypeToSubscribe.New(its.ctx.L(), its.Key)
-		case caseUsedDUID:
-		case caseMatchKeyNotType:
+		case caseUsedDUID, caseMatchKeyNotType: // no datatype of this type under the key
+			return errors.PushPullNoDatatypeToSubscribe.New(its.ctx.L(), its.Key)
 		case caseAllMatchedSubscribed:
 		case caseAllMatchedNotSubscribed:
 			return its.subscribeDatatype()
@@ -325,7 +327,9 @@ func (its *PushPullHandler) processSubscribeOrCreate(code pushPullCase) errors.O
 		case caseMatchNothing: // can create with key and duid
 			return its.createDatatype()
 		case caseUsedDUID: // duplicate DUID; can create with key but with another DUID
+			return errors.PushPullDuplicateKey.New(its.ctx.L(), its.DUID)
 		case caseMatchKeyNotType: // key is already used;
+			return errors.PushPullDuplicateKey.New(its.ctx.L(), its.Key)
 		case caseAllMatchedSubscribed: // already created and subscribed; might duplicate creation; do nothing
 		case caseAllMatchedNotSubscribed: // error: already created but not subscribed;
 			return errors.PushPullDuplicateKey.New(its.ctx.L(), its.Key)
